@@ -181,7 +181,9 @@ def build():
             return new_df(ex, st, sliced(F, lo, hi))
         if isinstance(key, V) and key.ty.kind == 'list':
             return new_df(ex, st, taken(F, st.sel('list', S.addr(key.t))))
-        if isinstance(key, V) and key.ty.kind == 'int':
+        if isinstance(key, V) and key.ty.kind in ('int', 'any'):
+            if key.ty.kind == 'any':
+                ex.safety(st, 'TypeError', 'iloc position is an int', S.is_int(key.t))
             pos = S.ival(key.t)
             ex.safety(st, 'IndexError', 'iloc position', z3.And(pos >= -nrows(F), pos < nrows(F)))
             r = ex.alloc(st, 'Series')
@@ -681,6 +683,25 @@ def build():
                   raises={'SystemExit': [('only-for-an-unknown-column', lambda c: z3.Not(col_known(c)))]},
                   modifies=q_mod, fresh_fields=Q_FRESH + FRESH + ['ghost:df'] + ['attr:' + f for f in reg.classes['DataModel'].fields])
     reg.add(qv)
+    # ---- query_index_column_value_first: the first row (by position) holding the value ---------------------------------------------------------------------
+    def qf_spec(c):
+        F = q_F(c)
+        row = c.new.attr(c.res, '_row')
+        first = z3.Int('first_pos')
+        is_first = z3.And(first >= 0, first < nrows(F), cell(F, first, c.p.column_name) == c.p.value, z3.Not(na(c.p.value)),
+                          z3.ForAll([iq], z3.Implies(z3.And(iq >= 0, iq < first), cell(F, iq, c.p.column_name) != c.p.value), patterns=[cell(F, iq, c.p.column_name)]))
+        none_matches = z3.ForAll([iq], z3.Implies(z3.And(iq >= 0, iq < nrows(F)), z3.Or(cell(F, iq, c.p.column_name) != c.p.value, na(c.p.value))), patterns=[cell(F, iq, c.p.column_name)])
+        return z3.And(z3.Implies(S.is_none(c.res), none_matches),
+                      z3.Implies(z3.Not(S.is_none(c.res)), z3.And(
+                          S.has_type(c.res, Obj('Row')), cont(z3.Select(c.new.ghost('arr_fid'), S.addr(row))) == cont(F),
+                          c.new.attr(c.res, '_schema') == c.old.attr(c.p.self, '_schema'),
+                          z3.ForAll([first], z3.Implies(is_first, z3.And(z3.Select(c.new.ghost('arr_row'), S.addr(row)) == first, c.new.attr(c.res, '_index') == S.mk_int(first)))))))
+    reg.add(Contract(DMF, 'DataModel.query_index_column_value_first', dict(self=DM, column_name=Str, value=Any), returns=Opt(Obj('Row')),
+                     requires=[('invariant', lambda c: dm_inv(c.old, c.p.self)), ('has-a-frame', has_data), ('value-is-a-scalar', lambda c: scalar(c.p.value))],
+                     ensures=[('the-first-row-BY-POSITION-holding-the-value,-None-when-no-row-does', qf_spec), ('invariant', lambda c: dm_inv(c.new, c.p.self)),
+                              ('frame-untouched', same_frame)],
+                     raises={'SystemExit': [('only-for-an-unknown-column', lambda c: z3.Not(col_known(c)))]},
+                     modifies=q_mod, fresh_fields=Q_FRESH + FRESH + ['attr:_row', 'attr:_index', 'attr:_schema']))
     return reg
 
 
@@ -695,7 +716,7 @@ ASSUMPTIONS = [
     'fillna / set_columns do not call set_refresh_flag; they are not among the operations of the statement and are not under contract',
     'Row(...) stores its three arguments (object.__setattr__); assignment THROUGH a Row writes into the cached numpy row, never into the frame: not a table operation',
     'sorted() is specified as: ascending, same elements, duplicate-free if the input is',
-    'not yet under contract: query_index_column_value_first, read_block_with_block_stmts, boundary_of_multi_blocks, __iter__, '
+    'not yet under contract: read_block_with_block_stmts, boundary_of_multi_blocks, __iter__, '
     'unique_values_of_column, convert_to_dict_list, slow_query*, Column.bundle_search',
 ]
 EXPLANATION = ('Deductive proof that the representation invariant of DataModel (schema, row cache, per-column equality index describe the CURRENT frame) is '
@@ -715,6 +736,8 @@ QUICK_CANARIES = {
     'DataModel.rename_column': ['delete-stmt[self.set_refresh_flag()]'],
     'DataModel.access': ['flip-comparison', 'delete-stmt[self.refresh_rows()]'],
     'DataModel.slice': ['drop-return-value'],
+    'DataModel.query_index_column_value': ['drop-return-value', 'negate-condition'],
+    'DataModel.query_index_column_value_first': ['off-by-one', 'negate-condition'],
     'list_to_dict_with_index': ['delete-stmt[result[key] = index]'],
 }
 MIN_CANARY_KILL_RATIO = 0.85
